@@ -20,6 +20,7 @@ import (
 	"sort"
 	"strconv"
 	"go/parser"
+	"go/printer"
 	"go/token"
 	"os"
 	"path/filepath"
@@ -335,6 +336,13 @@ func lfEmptyPathPanic(fd *ast.FuncDecl, what string) (string, bool) {
 	return s, err == nil
 }
 
+// lfExprText: source text of an expression (for loose matching).
+func lfExprText(g *gen, e ast.Expr) string {
+	var b strings.Builder
+	printer.Fprint(&b, g.fset, e)
+	return b.String()
+}
+
 func lfHasDeferClose(fd *ast.FuncDecl) bool {
 	found := false
 	for _, st := range fd.Body.List { // top-level defer only
@@ -479,6 +487,22 @@ func genOpenFile(g *gen, fd *ast.FuncDecl) {
 	}
 	g.lfB("truncate_after_lock", "in openFile the Truncate call comes after the lock switch, which comes after os.OpenFile",
 		opens[0].Pos() < sw.Pos() && sw.End() < trs[0].Pos())
+	// the Unlock of the error path must sit inside the `statErr != nil || IsRegular()` block:
+	// for other files the Truncate error is ignored and the File is returned, still locked
+	inside := false
+	ast.Inspect(trIf.Body, func(n ast.Node) bool {
+		is, ok := n.(*ast.IfStmt)
+		if !ok || is == trIf {
+			return true
+		}
+		if len(lfCalls(is.Cond, "fi.Mode().IsRegular")) == 0 && !strings.Contains(lfExprText(g, is.Cond), "IsRegular") {
+			return true
+		}
+		un := lfCalls(trIf.Body, "filelock.Unlock")
+		inside = len(un) == 1 && un[0].Pos() > is.Body.Pos() && un[0].End() < is.Body.End()
+		return false
+	})
+	g.lfB("truncate_unlock_inside_regular_check", "openFile releases the lock after a failed Truncate only inside the is-regular-file block (other files are returned, still locked)", inside)
 	g.lfB("truncate_failure_unlocks_first", "when Truncate fails openFile calls filelock.Unlock before f.Close",
 		func() bool {
 			un := lfCalls(trIf.Body, "filelock.Unlock")
